@@ -340,6 +340,11 @@ class AdjointVisitor(PSyIRVisitor):
             fortran_writer = FortranWriter()
             hi_str = fortran_writer(node.stop_expr)
             lo_str = fortran_writer(node.start_expr)
+            if not isinstance(node.start_expr, (Reference, Literal, Call)):
+                # The start expression is the right-hand operand of the
+                # subtraction below so must be bracketed if it is itself
+                # an expression (e.g. 'hi-(n-1)', not 'hi-n-1').
+                lo_str = f"({lo_str})"
             step_str = fortran_writer(node.step_expr)
             # TODO: use language independent PSyIR, see issue #1345
             ptree = Fortran2003.Intrinsic_Function_Reference(
